@@ -32,6 +32,7 @@ type c29Prog struct {
 	TTL  int64    `json:"ttl,omitempty"` // seconds; 0 = registry default
 	Body []string `json:"body,omitempty"`
 	Out  string   `json:"out,omitempty"`    // ok | err | panic
+	Fast bool     `json:"fast,omitempty"` // stress actor: resolve through VerifStickyResolve (real installStickyOnRequestNoCtx, no HTTP framing)
 	Strm bool     `json:"stream,omitempty"` // req: run the script inside the first Produce turn of a producer stream (/sact/init)
 	D    int64    `json:"d,omitempty"`      // adv: seconds
 	B    bool     `json:"b,omitempty"`      // drain flag
@@ -42,6 +43,11 @@ type c29In struct {
 	Progs []c29Prog `json:"progs"`
 	Sched []int     `json:"sched"`
 	Note  string    `json:"note,omitempty"`
+	// Stress > 0: progs = [opener; adv D; actors...] where every actor bears the
+	// opener's (by then expired) token or is a reaper sweep / shutdown. The
+	// actors are released together behind a barrier, for up to Stress rounds
+	// (bounded time); see c29RunStress.
+	Stress int `json:"stress,omitempty"`
 }
 
 type c29Caller struct {
@@ -626,6 +632,10 @@ func c29Run(in c29In) CaseOut {
 			p.Out = "ok"
 		}
 	}
+	if in.Stress > 0 && c29StressShape(in) {
+		return c29RunStress(in)
+	}
+	in.Stress = 0
 	cs := c29NewCase(in)
 	c29cur.Store(cs)
 	for _, t := range in.Sched {
@@ -741,6 +751,254 @@ func c29Run(in c29In) CaseOut {
 	}
 	return CaseOut{Coq: Pair(coqIn, coqObs), Tags: tags, Nontrivial: resumed > 0 || closedEv > 0 || tagset["session-lost"],
 		Obs: obs{trace, locked, cs.eff}}
+}
+
+// ---- concurrent stress on one expired session -----------------------------------
+
+func c29StressShape(in c29In) bool {
+	if len(in.Progs) < 3 {
+		return false
+	}
+	p0, p1 := in.Progs[0], in.Progs[1]
+	if p0.Kind != "req" || p0.Tk != -2 || !p0.Acc || len(p0.Body) != 1 || p0.Body[0] != "open" || p0.Out != "ok" || p1.Kind != "adv" {
+		return false
+	}
+	for i, p := range in.Progs[2:] {
+		switch p.Kind {
+		case "req":
+			if p.Tk != 0 || len(p.Body) != 0 {
+				return false
+			}
+		case "del":
+			if p.Tk != 0 {
+				return false
+			}
+		case "reap", "shut":
+			if i == 0 { // the first actor is a request or delete: evictions are normalised onto it
+				return false
+			}
+		default:
+			return false
+		}
+	}
+	return true
+}
+
+type c29Round struct {
+	opened bool
+	closes int
+	out    []string // per actor: lost | ran | del200 | del204 | sys | hung
+	bad    bool
+}
+
+func c29StressRound(cs *c29Case, in c29In) c29Round {
+	// servers are reused across rounds; each round opens a fresh session
+	cs.mu.Lock()
+	for i, p := range in.Progs {
+		th := &c29Thread{prog: p, gate: make(chan struct{}), ack: make(chan struct{}, 16),
+			done: make(chan HTTPResp, 1), held: -1, waitsOn: -1, opened: -1, left: len(p.Body)}
+		close(th.gate) // handlers never park in a stress round
+		cs.th[i] = th
+	}
+	lab := cs.nextLabel
+	cs.closeBuf = nil
+	cs.mu.Unlock()
+	res := c29Round{out: make([]string, len(in.Progs))}
+	post := func(t int, p c29Prog, hdr map[string]string) HTTPResp {
+		h := cs.srv[p.W%c29Workers]
+		if p.Strm {
+			return DoHTTP(h, "POST", "/sact/init", ReqBytes(PIntBatch(int64(t)), StdMeta("sact", "", "")), hdr)
+		}
+		return DoHTTP(h, "POST", "/act", ReqBytes(PIntBatch(int64(t)), StdMeta("act", "", "")), hdr)
+	}
+	p0 := in.Progs[0]
+	r0 := post(0, p0, map[string]string{"X-Caller": fmt.Sprint(p0.C), "VGI-Session-Accept": "true"})
+	tok := r0.Header.Get("VGI-Session")
+	res.opened = tok != ""
+	for _, h := range cs.srv {
+		vgirpc.VerifStickyShift(h, time.Duration(in.Progs[1].D)*time.Second)
+	}
+	// spin barrier: every actor is running on a P when the last one arrives, so
+	// they reach the registry within nanoseconds of each other
+	var arrived atomic.Int32
+	nAct := int32(len(in.Progs) - 2)
+	var wg sync.WaitGroup
+	var mu sync.Mutex
+	for i := 2; i < len(in.Progs); i++ {
+		wg.Add(1)
+		go func(t int, p c29Prog) {
+			defer wg.Done()
+			arrived.Add(1)
+			for arrived.Load() < nAct {
+				runtime.Gosched()
+			}
+			o := "sys"
+			switch p.Kind {
+			case "req":
+				if p.Fast {
+					auth, _ := c29AuthOf(p.C)
+					o = "ran"
+					if vgirpc.VerifStickyResolve(cs.srv[p.W%c29Workers], tok, auth) {
+						o = "lost"
+					}
+					break
+				}
+				r := post(t, p, map[string]string{"X-Caller": fmt.Sprint(p.C), "VGI-Session": tok})
+				o = "ran"
+				for _, st := range ParseStreams(r.Body) {
+					for _, f := range st.Frames {
+						if f.Kind == "exc" && f.ErrKind == "session_lost" {
+							o = "lost"
+						}
+					}
+				}
+			case "del":
+				r := DoHTTP(cs.srv[p.W%c29Workers], "DELETE", "/__session__", nil, map[string]string{"X-Caller": fmt.Sprint(p.C), "VGI-Session": tok})
+				o = fmt.Sprintf("del%d", r.Status)
+			case "reap":
+				vgirpc.VerifStickyReap(cs.srv[p.W%c29Workers])
+			case "shut":
+				cs.srv[p.W%c29Workers].DrainHandle().Shutdown()
+			}
+			mu.Lock()
+			res.out[t] = o
+			mu.Unlock()
+		}(i, in.Progs[i])
+	}
+	fin := make(chan struct{})
+	go func() { wg.Wait(); close(fin) }()
+	select {
+	case <-fin:
+	case <-time.After(c29Long):
+		res.bad = true
+	}
+	cs.mu.Lock()
+	for _, c := range cs.closeBuf {
+		if c.label == lab {
+			res.closes++
+		}
+	}
+	cs.mu.Unlock()
+	mu.Lock()
+	for i := 2; i < len(in.Progs); i++ {
+		switch res.out[i] {
+		case "lost", "del200", "sys":
+		case "":
+			res.out[i] = "hung"
+			res.bad = true
+		default:
+			res.bad = true
+		}
+	}
+	mu.Unlock()
+	if !res.opened || res.closes != 1 {
+		res.bad = true
+	}
+	return res
+}
+
+// c29RunStress releases the actors concurrently, round after round, and reports
+// the first round in which the schedule-independent facts fail (Close() of the
+// expired session's state ran exactly once; every request got session_lost,
+// every DELETE 200), or else the last round, as a trace in canonical (program)
+// order: the evictions are attached to the first actor and operator steps
+// report RSys 0, because WHICH actor evicts is the schedule's choice. The Close
+// total and every caller's own outcome are exact.
+func c29RunStress(in c29In) CaseOut {
+	deadline := time.Now().Add(1200 * time.Millisecond)
+	var shown c29Round
+	rounds, hist := 0, map[int]int{}
+	cs := c29NewCase(in)
+	c29cur.Store(cs)
+	defer func() {
+		for _, h := range cs.srv {
+			h.DrainHandle().Shutdown()
+		}
+	}()
+	for r := 0; r < in.Stress && (r == 0 || time.Now().Before(deadline)); r++ {
+		res := c29StressRound(cs, in)
+		rounds++
+		hist[res.closes]++
+		shown = res
+		if res.bad {
+			break
+		}
+	}
+	var tr []string
+	var eff []int
+	if shown.opened {
+		tr = append(tr, App("C29.EStart", Nat(0)), App("C29.EEnter", Nat(0), "None", "false"),
+			App("C29.EAct", Nat(0), App("C29.AOpened", N(0))),
+			App("C29.EResp", Nat(0), App("C29.RDone", "C29.OOk", "(Some "+N(0)+")", "false")))
+	} else {
+		tr = append(tr, App("C29.EStart", Nat(0)))
+	}
+	eff = append(eff, 0, 0, 0, 1)
+	tr = append(tr, App("C29.EResp", Nat(1), App("C29.RSys", N(0))))
+	for t := 2; t < len(in.Progs); t++ {
+		eff = append(eff, t)
+		p := in.Progs[t]
+		if p.Kind == "req" || p.Kind == "del" {
+			tr = append(tr, App("C29.EStart", Nat(t)))
+		}
+		if t == 2 {
+			for k := 0; k < shown.closes; k++ {
+				tr = append(tr, App("C29.EClosed", N(0)))
+			}
+		}
+		switch shown.out[t] {
+		case "lost":
+			tr = append(tr, App("C29.EResp", Nat(t), "C29.RLost"))
+		case "ran":
+			tr = append(tr, App("C29.EEnter", Nat(t), "(Some "+N(0)+")", "true"),
+				App("C29.EResp", Nat(t), App("C29.RDone", "C29.OOk", "None", "false")))
+		case "del200":
+			tr = append(tr, App("C29.EResp", Nat(t), App("C29.RDel", "false")))
+		case "del204":
+			tr = append(tr, App("C29.EResp", Nat(t), App("C29.RDel", "true")))
+		case "sys":
+			tr = append(tr, App("C29.EResp", Nat(t), App("C29.RSys", N(0))))
+		}
+	}
+	coqIn := App("C29.Build_input", Z(in.DTTL), ListOf(in.Progs, c29ProgTerm), ListOf(eff, Nat))
+	coqObs := App("C29.Build_obs", List(tr), "[]")
+	tags := []string{"stress", fmt.Sprintf("stress-actors-%d", len(in.Progs)-2)}
+	kinds := map[string]bool{}
+	for _, p := range in.Progs[2:] {
+		k := p.Kind
+		if p.Kind == "req" && p.Strm {
+			k = "stream"
+		}
+		if p.Kind == "req" && p.Fast {
+			k = "bare"
+		}
+		kinds[k] = true
+	}
+	for k := range kinds {
+		tags = append(tags, "stress-"+k)
+	}
+	if shown.bad {
+		tags = append(tags, "stress-bad-round")
+	}
+	sort.Strings(tags)
+	type obs struct {
+		Rounds      int
+		ClosesHist  map[int]int
+		ShownRound  c29RoundObs
+		Trace       []string
+		Eff         []int
+		Explanation string
+	}
+	return CaseOut{Coq: Pair(coqIn, coqObs), Tags: tags, Nontrivial: true,
+		Obs: obs{rounds, hist, c29RoundObs{shown.opened, shown.closes, shown.out, shown.bad}, tr, eff,
+			"concurrent rounds; trace is the first failing (else last) round in canonical order"}}
+}
+
+type c29RoundObs struct {
+	Opened bool
+	Closes int
+	Out    []string
+	Bad    bool
 }
 
 // ---- generators --------------------------------------------------------------
@@ -881,13 +1139,63 @@ func c29Contention(r *rand.Rand) c29In {
 	return c29In{DTTL: 250, Progs: ps, Sched: sched, Note: "contention"}
 }
 
+// c29Stress builds one stress input: opener (ttl 150) on worker 0, clock +200 s,
+// then the given actors, all bearing the expired token.
+func c29Stress(note string, rounds, caller int, strmOpen bool, actors ...c29Prog) c29In {
+	op := c29Req(0, caller, -2, true, 150, "ok", "open")
+	op.Strm = strmOpen
+	ps := []c29Prog{op, {Kind: "adv", D: 200}}
+	for _, a := range actors {
+		if a.Kind == "req" || a.Kind == "del" {
+			a.C, a.Tk = caller, 0
+		}
+		ps = append(ps, a)
+	}
+	return c29In{DTTL: 250, Progs: ps, Stress: rounds, Note: "stress: " + note}
+}
+
+func c29StressBoundary(rounds int) []c29In {
+	u := c29Prog{Kind: "req", Out: "ok"}
+	st := c29Prog{Kind: "req", Out: "ok", Strm: true}
+	f := c29Prog{Kind: "req", Out: "ok", Fast: true}
+	d := c29Prog{Kind: "del"}
+	reap := c29Prog{Kind: "reap"}
+	shut := c29Prog{Kind: "shut"}
+	return []c29In{
+		c29Stress("8 bare resolutions (installStickyOnRequestNoCtx without HTTP framing)", rounds, 1, false, f, f, f, f, f, f, f, f),
+		c29Stress("bare resolutions racing DELETE, reaper and a unary resume", rounds, 2, false, f, f, d, reap, f, u, f),
+		c29Stress("2 unary resumes of one expired session", rounds, 1, false, u, u),
+		c29Stress("4 unary resumes", rounds, 1, false, u, u, u, u),
+		c29Stress("8 unary resumes, anonymous owner", rounds, 0, false, u, u, u, u, u, u, u, u),
+		c29Stress("stream inits", rounds, 2, true, st, st, st),
+		c29Stress("two DELETEs", rounds, 1, false, d, d),
+		c29Stress("resume, stream init and DELETE", rounds, 1, false, u, st, d, u),
+		c29Stress("resumes racing the reaper", rounds, 1, false, u, reap, u, reap),
+		c29Stress("DELETE and resume racing shutdown", rounds, 2, false, d, shut, u),
+		c29Stress("resume racing reaper and shutdown", rounds, 1, false, u, reap, shut),
+	}
+}
+
 func c29Gen(r *rand.Rand, n int, tier string) []c29In {
-	out := c29Boundary()
+	rounds := 6000
+	if tier == "thorough" {
+		rounds = 20000
+	}
+	out := append(c29StressBoundary(rounds), c29Boundary()...)
 	ttls := []int64{0, 150, 150, 250, 350}
 	outs := []string{"ok", "ok", "ok", "err", "panic"}
 	for len(out) < n {
 		if r.Intn(3) == 0 {
 			out = append(out, c29Contention(r))
+			continue
+		}
+		if r.Intn(25) == 0 {
+			kinds := []c29Prog{{Kind: "req", Out: "ok"}, {Kind: "req", Out: "ok", Fast: true}, {Kind: "del"}, {Kind: "req", Out: "ok", Strm: true}, {Kind: "req", Out: "ok", Fast: true}, {Kind: "reap"}, {Kind: "shut"}}
+			acts := []c29Prog{kinds[r.Intn(3)]}
+			for k := 1 + r.Intn(5); k > 0; k-- {
+				acts = append(acts, kinds[r.Intn(len(kinds))])
+			}
+			out = append(out, c29Stress("random actors", 2000, r.Intn(3), r.Intn(3) == 0, acts...))
 			continue
 		}
 		np := 3 + r.Intn(8)
@@ -979,6 +1287,6 @@ func c29Gen(r *rand.Rand, n int, tier string) []c29In {
 }
 
 func init() {
-	Register("C29", "boundary histories and forced schedules first (DELETE during a unary call / a stream turn / two DELETEs / DELETE then resume, identity/worker/garbage isolation, expiry inline and by reaper, delete, drain, shutdown, panics, same-session blocking, different-session overlap, close/delete/expiry/shutdown races), then random programs of 3-10 threads over 2 workers x 3 callers (20% with all 7 callers incl. NUL-domain and arbitrary token refs), 1/3 sequential histories and 2/3 random interleavings; TTLs in {default,150,250,350}s and clock shifts in {40,120,200}s so no expiry falls on a boundary (boundary cases use 100s steps against TTLs = 50 mod 100); 25% of requests run their script inside a producer stream's first turn; non-trivial = a session was resumed, a state was closed or a request got session_lost; distinct = distinct input JSON",
+	Register("C29", "first 11 concurrent-stress cases (2-8 actors bearing one just-expired session token -- unary, stream init, DELETE, bare installStickyOnRequestNoCtx -- plus reaper sweeps and shutdown, released behind a barrier for up to 6000/20000 rounds or 1.2 s, spin barrier; facts compared: Close() exactly once, every request session_lost, every DELETE 200; shown in canonical order), ~4% of the random stream likewise; then boundary histories and forced schedules first (DELETE during a unary call / a stream turn / two DELETEs / DELETE then resume, identity/worker/garbage isolation, expiry inline and by reaper, delete, drain, shutdown, panics, same-session blocking, different-session overlap, close/delete/expiry/shutdown races), then random programs of 3-10 threads over 2 workers x 3 callers (20% with all 7 callers incl. NUL-domain and arbitrary token refs), 1/3 sequential histories and 2/3 random interleavings; TTLs in {default,150,250,350}s and clock shifts in {40,120,200}s so no expiry falls on a boundary (boundary cases use 100s steps against TTLs = 50 mod 100); 25% of requests run their script inside a producer stream's first turn; non-trivial = a session was resumed, a state was closed or a request got session_lost; distinct = distinct input JSON",
 		c29Gen, c29Run)
 }
